@@ -271,6 +271,9 @@ CHECKS["C09"] = {
         {"name": "stream-listener", "pkg": "srvworld", "run": "^TestC09Stream$",
          "quick": {"shards": 3, "checks": 1500, "timeout_s": 420},
          "thorough": {"shards": 16, "checks": 20000, "size": 50, "timeout_s": 2400}},
+        {"name": "client-inbound", "pkg": "cliworld", "run": "^TestC09Client$",
+         "quick": {"shards": 3, "checks": 1500, "timeout_s": 420},
+         "thorough": {"shards": 16, "checks": 20000, "timeout_s": 2400}},
     ],
 }
 
